@@ -27,8 +27,19 @@ def _event(call, side, string_fns):
     return None
 
 
-def signature(f, entry, region, side, string_fns):
-    """events of the blocks of `region` in reverse post-order from `entry`, annotated with loop depth"""
+def normalise(txt):
+    """a repetition whose body is a single repetition is that repetition ((x*)* = x*): `rows.iter().flatten()` and a
+    nested loop write the same wire language"""
+    prev = None
+    while prev != txt:
+        prev = txt
+        txt = re.sub(r"\[ \[ ([^\[\]]*) \] \]", r"[ \1 ]", txt)
+    return txt
+
+
+def signature(f, entry, region, side, string_fns, prog=None):
+    """events of the blocks of `region` in reverse post-order from `entry`, annotated with loop depth. With `prog`, a
+    closure handed to Iterator::for_each / try_for_each is a repetition of the closure's own signature."""
     loops = [(h, body) for h, body in natural_loops(f) if h in region]
     order, seen = [], set()
 
@@ -48,9 +59,18 @@ def signature(f, entry, region, side, string_fns):
         if c is None:
             continue
         ev = _event(c, side, string_fns)
+        depth = sum(1 for h, body in loops if b in body)
+        if ev is None and prog is not None and c.callee.rsplit("::", 1)[-1] in ("for_each", "try_for_each"):
+            clo = [t for t in prog.targets(c) if t in prog.raw_fns and prog.raw_fns[t].kind == "closure"]
+            if len(clo) == 1:
+                g = prog.fns.view(clo[0]) if hasattr(prog.fns, "view") else prog.raw_fns[clo[0]]
+                inner = signature(g, 0, set(range(len(g.blocks))), side, string_fns, prog)
+                if inner:
+                    for tok in ("[ " + inner + " ]").split(" "):
+                        out.append((depth, tok))
+            continue
         if ev is None:
             continue
-        depth = sum(1 for h, body in loops if b in body)
         out.append((depth, ev))
     # render with brackets
     s, cur = [], 0
@@ -66,6 +86,4 @@ def signature(f, entry, region, side, string_fns):
         s.append("]")
         cur -= 1
     txt = " ".join(s)
-    # a repetition of identical bodies next to each other is one repetition
-    txt = re.sub(r"\] \[", " ", txt) if False else txt
-    return txt
+    return normalise(txt)
